@@ -471,7 +471,7 @@ func genH1Case(t *tape.Tape, tier, mode string) *h1Case {
 		}
 		c.Creds = t.Chance(1, 5)
 	} else if t.Chance(1, 4) {
-		c.RespRules = append(c.RespRules, []string{"X-Resp-Added: by-rule", "-X-Resp-A", "Server;"}[t.Intn(3)])
+		c.RespRules = append(c.RespRules, []string{"X-Resp-Added: by-rule", "-X-Resp-A", "Server;", "-x-resp-*", "-SET-COOK*", "%x-resp-multi"}[t.Intn(6)])
 	}
 	for ci := 0; ci < nConns; ci++ {
 		var conn h1Conn
@@ -1124,7 +1124,7 @@ func (w *h1World) checkResponse(rec *clientRec, or *originRec, ex *h1Exchange) {
 		return
 	}
 	if got.Reason != r.Reason {
-		env.Probe("reason_phrase_changed")
+		env.Fail("resp-reason", f, "%s: origin status line \"%d %s\" reached the client as \"%d %s\"", tok, r.Status, r.Reason, got.Status, got.Reason)
 	}
 	if got.Framing == h1.FrEOF && !got.HasToken("Connection", "close") {
 		env.Fail("resp-unframed", fmt.Sprintf("%s/gzip=%v", r.BodyKind, or.Gzip), "%s: the response the client received has neither Content-Length nor chunked coding nor \"Connection: close\": on this persistent connection a conforming client cannot tell where it ends (origin framing %s, origin gzip %v); head: %q", tok, r.BodyKind, or.Gzip, truncate(string(got.HeadRaw), 400))
